@@ -231,8 +231,8 @@ func (g *core) waitCw() (string, bool) {
 			return "cw-racy", true
 		}
 		return "cw " + g.cwString(arg), true
-	case <-time.After(5 * time.Second):
-		g.o.Fail("cancelwants-not-called", "cancelWants was not called within 5s")
+	case <-time.After(3 * time.Second):
+		g.o.Fail("cancelwants-not-called", "cancelWants was not called within 3s")
 		return "cw-timeout", false
 	}
 }
@@ -319,7 +319,7 @@ func execCore(g *core, f []string, o *vh.Out) string {
 		}
 		wait := 30 * time.Millisecond
 		if len(g.pending) > 0 || g.done || g.allDelivered() {
-			wait = 5 * time.Second
+			wait = 3 * time.Second
 		}
 		select {
 		case b, ok := <-g.out:
